@@ -214,11 +214,13 @@ package spg
 // ---------------------------------------------------------------- word_gen.go
 
 //@ func NewWordList
+//@   uses NORMOF-def
 //@   ensures [C10,C13] empty:   len(list) == 0 ==> err != nil && res == nil
 //@   ensures [C10,C13] nonempty: len(list) > 0 && len(list) <= 4294967295 ==> err == nil && res != nil
 //@   ensures [C10] xor:         (res == nil) == (err != nil)
 //@   ensures [C10] fresh:       err == nil ==> fresh(res) && fresh(res.words)
 //@   ensures [C10,C04,C05] kept: err == nil ==> forall(str(w), inS(arr(res.words), off(res.words), len(res.words), w) == keptS(old(arr(list)), off(list), len(list), w))
+//@   ensures [C10,C17] norm:   err == nil ==> normOf(arr(res.words), off(res.words), len(res.words), old(arr(list)), off(list), len(list))
 //@   ensures [C10,C04] nodup:   err == nil ==> forall(int(i), int(j), 0 <= i && i < j && j < len(res.words) ==> res.words[i] != res.words[j])
 //@   ensures [C08,C06] uncap:   err == nil ==> res.unCapitalizableCount >= 0 &&
 //@        ((res.unCapitalizableCount == 0) == forall(int(i), 0 <= i && i < len(res.words) ==> title(res.words[i]) != res.words[i]))
@@ -252,6 +254,7 @@ package spg
 
 //@ func entropySimple
 //@   ensures [C07,C08] value: res == real(length) * log2(real(nelem))
+//@   ensures [C17] silent: nelem >= 1 ==> outn == old(outn) && outl == old(outl)
 
 //@ func (WLRecipe).Entropy
 //@   requires [C08] list: r.list != nil
@@ -262,6 +265,7 @@ package spg
 //@   ensures [C08,C15] sep-once: r.SeparatorFunc == nil ==> sfcalls == old(sfcalls) && pos == old(pos) && ctr == old(ctr)
 //@   ensures [C08] sep-called: r.SeparatorFunc != nil ==> sfcalls == old(sfcalls) + 1
 //@   ensures [C04] monotone:   ctr >= old(ctr) && pos >= old(pos)
+//@   ensures [C17] silent: len(r.list.words) >= 1 ==> outn == old(outn) && outl == old(outl)
 
 //@ func (WLRecipe).Generate$1
 //@   inline
@@ -284,6 +288,7 @@ package spg
 //@        ite(r.list.unCapitalizableCount <= 0, ite(r.Capitalize == CSRandom, real(r.Length), ite(r.Capitalize == CSOne, log2(real(r.Length)), 0.0)), 0.0) +
 //@        (real(r.Length) - 1.0) * ite(r.SeparatorFunc == nil, 0.0, sfent(r.SeparatorFunc))
 //@   ensures [C13,C15] fresh: err == nil ==> fresh(res)
+//@   ensures [C17] silent: err == nil ==> outn == old(outn) && outl == old(outl)
 //@   ensures [C05] first:   err == nil ==> P[0] == 0
 //@   ensures [C05] total:   err == nil ==> len(res.tokens) == P[r.Length]
 //@   ensures [C04,C05,C10] atoms: err == nil ==> forall(int(a), trig(P[a]), 0 <= a && a < r.Length ==> P[a] >= 0 && P[a] < len(res.tokens) &&
@@ -414,6 +419,7 @@ package spg
 //@   trusted
 //@   modifies emitted
 //@   ensures [C13] value: res == successProb(pub(r), arr(r.RequireSets), off(r.RequireSets), len(r.RequireSets))
+//@   trusted-ensures [C17] silent: alphaSize(pub(r), arr(r.RequireSets), off(r.RequireSets), len(r.RequireSets)) >= 1 ==> outn == old(outn) && outl == old(outl)
 
 //@ func (CharRecipe).Entropy
 //@   define utf8r() = utf8ok(r.AllowChars) && utf8ok(r.ExcludeChars) &&
@@ -424,9 +430,11 @@ package spg
 //@        res == real(r.Length) * log2(real(alphaSize(pub(r), arr(r.RequireSets), off(r.RequireSets), len(r.RequireSets))))
 //@   ensures [C07,C06] required: !noReq(r, arr(r.RequireSets), off(r.RequireSets), len(r.RequireSets)) ==>
 //@        res == entropyReq(pub(r), arr(r.RequireSets), off(r.RequireSets), len(r.RequireSets))
+//@   ensures [C17] silent: alphaSize(pub(r), arr(r.RequireSets), off(r.RequireSets), len(r.RequireSets)) >= 1 ==> outn == old(outn) && outl == old(outl)
 
 //@ func (CharRecipe).hasAcceptableFailRate
 //@   modifies emitted
+//@   ensures [C17] silent: alphaSize(pub(r), arr(r.RequireSets), off(r.RequireSets), len(r.RequireSets)) >= 1 ==> outn == old(outn) && outl == old(outl)
 //@   ensures [C13] decision: res0 == (successProb(pub(r), arr(r.RequireSets), off(r.RequireSets), len(r.RequireSets)) > 0.0 &&
 //@        rpow(1.0 - successProb(pub(r), arr(r.RequireSets), off(r.RequireSets), len(r.RequireSets)), real(MaxTrials)) <= MaxFailRate)
 
@@ -464,6 +472,7 @@ package spg
 //@   ensures [C02] rejected:     err == nil ==> forall(int(b), trig(S[b]), 0 <= b && b < N[0] ==> !ok(S[b]) && S[b] == catTok(V[b], 0, r.Length) &&
 //@        forall(int(j), trig(V[b][idx(0, j)]), 0 <= j && j < r.Length ==> V[b][idx(0, j)].value == E[idx(0, oracle(C[b] + j, M[0]))]))
 //@   ensures [C13,C15] fresh:    err == nil ==> fresh(res)
+//@   ensures [C17] silent:       err == nil ==> outn == old(outn) && outl == old(outl)
 //@   ensures [C04] monotone:     ctr >= old(ctr) && pos >= old(pos)
 //@   loop 1 invariant [C04] mono:  ctr >= old(ctr) && pos >= old(pos)
 //@   loop 1 invariant [C13] att:   0 <= i && N[0] == i && C[i] == ctr && C[0] == old(ctr) &&
